@@ -6,6 +6,7 @@ package checks
 // executed by the real interpreter and compared with the reference evaluator.
 
 import (
+	"strings"
 	"encoding/json"
 	"fmt"
 	"math"
@@ -242,7 +243,7 @@ func init() {
 	mc.Register(&mc.Check{
 		ID:    "C01",
 		Level: "exploration",
-		Rule:  "E1 exhaustive: every binary expression tree with n operator nodes (all shapes) over the listed operator spellings and leaf pool (numbers incl. huge/tiny/negative/fractional, NaN/±Inf/-0 through 输入 variables, booleans, texts), each rendered with minimal braces and fully braced; real interpreter vs reference evaluator on value (bit-exact), error class and, in the traced families, operand evaluation order. Cases are distinct by construction (rank/unrank); a case is non-trivial if it has at least one operator node.",
+		Rule:  "E1 exhaustive: every binary expression tree with n operator nodes (all shapes) over the listed operator spellings and leaf pool (numbers incl. huge/tiny/negative/fractional, NaN/±Inf/-0 through 输入 variables, booleans, texts), each rendered with minimal braces and fully braced; real interpreter vs reference evaluator on value (bit-exact), error class and, in the traced families, operand evaluation order. Plus every chain 1 + 2 + … + N of N distinct literals (and an alternating +/- chain of N fractional literals), N = 1..300 (2000 thorough), each evaluated twice in one program. Cases are distinct by construction (rank/unrank); a case is non-trivial if it has at least one operator node.",
 		Assumptions: []string{
 			"reference evaluator uses Go float64 arithmetic (IEEE-754), math.Floor for | and %",
 			"unbraced chains of comparisons are never generated (BNF allows, parser rejects, statement only fixes left-to-right grouping)",
@@ -292,11 +293,36 @@ func init() {
 				base += sz * 2
 				c.Bound("family_"+fam.name, fmt.Sprintf("complete: %d trees x 2 renderings (ops=%d leaves=%d)", sz, len(fam.ops), len(fam.leaves)))
 			}
+			// long chains: 1 + 2 + ... + N with N distinct literals, evaluated twice in one program
+			// (every length 1..N: anything that depends on how many literals / operands a run has seen)
+			N := 300
+			if c.Tier == "thorough" {
+				N = 2000
+			}
+			c.Describe = func(idx int64) json.RawMessage { return mc.J(c01Case{Family: "chain", K: idx - base}) }
+			for k := int64(1); k <= int64(N); k++ {
+				if !c.Mine(base + k) {
+					continue
+				}
+				c.CaseIdx(base + k)
+				if fl := c01Chain(int(k)); fl != nil {
+					c.Fail(*fl)
+				}
+				c.Eval(true)
+				c.Stat("chains", 1)
+			}
+			c.Bound("chains", fmt.Sprintf("complete: every length 1..%d", N))
 		},
 		Replay: func(c *mc.Ctx, raw json.RawMessage) {
 			var cs c01Case
 			if err := json.Unmarshal(raw, &cs); err != nil {
 				c.Fail(mc.Failure{Kind: "crash", Observed: err.Error()})
+				return
+			}
+			if cs.Family == "chain" {
+				if f := c01Chain(int(cs.K)); f != nil {
+					c.Fail(*f)
+				}
 				return
 			}
 			for _, tier := range []string{"quick", "thorough"} {
@@ -315,6 +341,46 @@ func init() {
 }
 
 func c01Sig(f *mc.Failure) string { return "" }
+
+// c01Chain: 令A = 1 + 2 + … + n; 令B = 1 + 2 + … + n (+ the same with - and a
+// product of small factors); both evaluations give the same, documented value.
+func c01Chain(n int) *mc.Failure {
+	var sum, alt strings.Builder
+	wantAlt := 0.0
+	for i := 1; i <= n; i++ {
+		if i > 1 {
+			sum.WriteString(" + ")
+			if i%2 == 0 {
+				alt.WriteString(" - ")
+			} else {
+				alt.WriteString(" + ")
+			}
+		}
+		fmt.Fprintf(&sum, "%d", i)
+		fmt.Fprintf(&alt, "%d.5", i)
+		if i%2 == 0 && i > 1 {
+			wantAlt -= float64(i) + 0.5
+		} else {
+			wantAlt += float64(i) + 0.5
+		}
+	}
+	src := "令A = " + sum.String() + "\n令B = " + sum.String() + "\n令C = " + alt.String() + "\n令D = " + alt.String() + "\n输出【A，B，C，D】"
+	cs := mc.J(c01Case{Family: "chain", K: int64(n), Source: src})
+	got := zn.RunReal(src, nil)
+	if got.Panic != "" {
+		return &mc.Failure{Kind: "panic", Bucket: "chain", Case: cs, Observed: got.Panic}
+	}
+	s := float64(n) * float64(n+1) / 2
+	want := zn.Canon(&zn.LV{Items: []zn.V{s, s, wantAlt, wantAlt}})
+	if got.Err != nil || got.Val != want {
+		obs := "value " + got.Val
+		if got.Err != nil {
+			obs = fmt.Sprintf("%s error %d %s", got.Err.Kind, got.Err.Code, got.Err.Msg)
+		}
+		return &mc.Failure{Kind: "mismatch", Bucket: "chain", Case: cs, Expected: fmt.Sprintf("【%v，%v，%v，%v】 = %s", s, s, wantAlt, wantAlt, want), Observed: obs}
+	}
+	return nil
+}
 
 // c01ErrSet evaluates e and returns, when an error is possible, the set of
 // error classes ("zero" divisor, "type") that any operand evaluation order
